@@ -182,6 +182,24 @@ def m_misaligned(rng, fs):
         t = rng.choice(["uint32", "uint64", "uint16"])
         rule, fields = "misaligned_size", [(t, 1, "a"), ("uint8", 1, "b")]
     decls = [("struct", "ZMis0", fields)]
+    v = rng.randint(0, 9)
+    if v < 5:
+        # the violation comes from a member that is itself a (valid) struct or an array: its size
+        # is not a multiple of what follows, or exceeds the widest primitive while its alignment is smaller
+        inner3 = ("struct", "ZIn3", [("uint32", 1, "a"), ("uint32", 1, "b"), ("uint32", 1, "c")])          # 12 bytes, alignment 4
+        inner6 = ("struct", "ZIn6", [("uint16", 1, "a"), ("uint16", 1, "b"), ("uint16", 1, "c")])          # 6 bytes, alignment 2
+        mid = ("struct", "ZMid", [("uint64", 1, "q"), ("ZIn3", 1, "i"), ("uint32", 1, "pad")])               # 24 bytes, alignment 8
+        wide = rng.choice(["uint64", "float64", "int64"])
+        if v == 0:
+            rule, decls = "misaligned_size", [inner3, ("struct", "ZMis0", [(wide, 1, "x"), ("ZIn3", 1, "i")])]                  # 20 bytes, alignment 8
+        elif v == 1:
+            rule, decls = "misaligned_member", [inner3, mid, ("struct", "ZMis0", [("uint32", 1, "k"), ("ZMid", 1, "m"), ("uint32", 1, "t")])]   # ZMid at offset 4
+        elif v == 2:
+            rule, decls = "misaligned_member", [("struct", "ZMis0", [("uint8", rng.choice([1, 3, 5, 7]), "a"), (rng.choice(["uint32", "uint64"]), 1, "b")])]
+        elif v == 3:
+            rule, decls = "misaligned_member", [inner6, ("struct", "ZMis0", [("ZIn6", 1, "i"), ("uint32", 1, "x"), ("uint16", 1, "y")])]        # uint32 at offset 6
+        else:
+            rule, decls = "misaligned_member", [inner3, ("struct", "ZMis0", [("ZIn3", rng.choice([1, 3]), "i"), (wide, 1, "x"), ("ZIn3", 1, "j")])]  # 64-bit member at offset 12 or 36
     for d in range(depth):
         # an outer struct that is itself well-formed given an aligned inner one
         decls.append(("struct", "ZMis%d" % (d + 1), [("ZMis%d" % d, 1, "inner")]))
